@@ -43,12 +43,13 @@ def substituted(ctx, idu, ids, context, variant):
 
 def cases(tier, seed):
     out = []
+    # all four shapes of (client identity, server identity) in {absent, explicit}^2
     idv = [(None, None, None), (b"u", b"s", b"c"), (None, b"server.example", None), (b"u" * 300, None, b"")]
     for si, s in enumerate(suites_for(tier, seed)):
         k = 0
         for v in ("fresh-key", "other-servers-key", "fake-key"):
-            for (a, b, c) in (idv if tier == "thorough" else idv[:2]):
-                out.append(dict(script=substituted, suite=s, seed=seed * 100000 + si * 100 + k, mode="pattern+err",
+            for (a, b, c) in idv:
+                out.append(dict(cross=["login_finish", "srv_login_finish", "srv_reg_start"], cross_limit=60, script=substituted, suite=s, seed=seed * 100000 + si * 100 + k, mode="pattern+err",
                                 params=dict(idu=a, ids=b, context=c, variant=v)))
                 k += 1
     return out
